@@ -44,19 +44,20 @@ type dpStep struct {
 	p, i, eni, extra, aset  int
 	dp, fam, how            string
 	def, multi, trunk, peer bool
+	steal                   int  // > 0: the pod is given the address the (never torn down) veth pod of that slot still carries
 	keep                    bool // the pod is given the address the previous pod of this slot held (possibly on another ENI now)
 }
 
 func dpStepOf(m vt.M) dpStep {
 	return dpStep{a: vt.Str(m["a"]), p: vt.Int(m["p"]), i: vt.Int(m["i"]), eni: vt.Int(m["eni"]), extra: vt.Int(m["extra"]),
 		aset: vt.Int(m["aset"]), dp: vt.Str(m["dp"]), fam: vt.Str(m["fam"]), how: vt.Str(m["how"]), def: vt.Bool(m["def"]),
-		multi: vt.Bool(m["multi"]), trunk: vt.Bool(m["trunk"]), peer: vt.Bool(m["peer"]), keep: vt.Bool(m["keep"])}
+		multi: vt.Bool(m["multi"]), trunk: vt.Bool(m["trunk"]), peer: vt.Bool(m["peer"]), keep: vt.Bool(m["keep"]), steal: vt.Int(m["steal"])}
 }
 
 // dpStepRec is the abstract scenario step as it came in (kept in the trace so that a recorded scenario can be driven again).
 func dpStepRec(st dpStep) vt.M {
 	return vt.M{"a": st.a, "p": st.p, "i": st.i, "dp": st.dp, "fam": st.fam, "eni": st.eni, "def": st.def, "multi": st.multi, "extra": st.extra,
-		"trunk": st.trunk, "aset": st.aset, "peer": st.peer, "how": st.how, "keep": st.keep}
+		"trunk": st.trunk, "aset": st.aset, "peer": st.peer, "how": st.how, "keep": st.keep, "steal": st.steal}
 }
 
 func dpReadScenarios(t *testing.T) [][]dpStep {
@@ -487,7 +488,7 @@ func dpCfgRec(st dpStep, cfg *types.SetupConfig, eniName, slave string) vt.M {
 		"ip4": dpNetIP(cfg.ContainerIPNet.IPv4), "len4": dpNetLen(cfg.ContainerIPNet.IPv4), "ip6": dpNetIP(cfg.ContainerIPNet.IPv6), "len6": dpNetLen(cfg.ContainerIPNet.IPv6),
 		"gw4": dpIP(cfg.GatewayIP.IPv4), "gw6": dpIP(cfg.GatewayIP.IPv6), "egw4": dpIP(egw.IPv4), "egw6": dpIP(egw.IPv6),
 		"strip": cfg.StripVlan, "defroute": cfg.DefaultRoute, "multi": cfg.MultiNetwork, "peer": !cfg.DisableCreatePeer, "extra": extra,
-		"host4": dpNetIP(cfg.HostIPSet.IPv4), "host6": dpNetIP(cfg.HostIPSet.IPv6), "aset": st.aset, "enigone": false}
+		"host4": dpNetIP(cfg.HostIPSet.IPv4), "host6": dpNetIP(cfg.HostIPSet.IPv6), "aset": st.aset, "enigone": false, "superseded": false}
 }
 
 func dpLinkRec(nsID int, l netlink.Link, name string, kind string, peer int) vt.M {
@@ -680,6 +681,9 @@ func dpRandomScenarios(n int, level int) [][]dpStep {
 			e := 1 + rng.Intn(2)
 			st := dpStep{a: "setup", p: p, i: 0, dp: dp, fam: fam, eni: e, def: true, multi: multi, extra: rng.Intn(3), aset: aset, peer: rng.Intn(4) != 0,
 				keep: level == 2 && rng.Intn(2) == 0}
+			if level == 2 && rng.Intn(4) == 0 {
+				st.steal = 1 + rng.Intn(3)
+			}
 			st.trunk = (dp == "policy" || dp == "ipvlan") && trunkENI[e]
 			sc = append(sc, st)
 			if multi {
@@ -836,6 +840,7 @@ type dpPod struct {
 	steps  []dpStep // attachments whose Setup succeeded
 	cfgs   []*types.SetupConfig
 	recs   []vt.M
+	superseded bool             // its address was handed to another pod: the pod is gone, only its late (fallback) DEL is to come
 	failed []*types.SetupConfig // policy-route attachments whose Setup failed: DEL still tears them down
 }
 
@@ -969,6 +974,12 @@ func (rw *dpRealWorld) setup(st dpStep, eniIndex int) (vt.M, error) {
 	if st.keep && st.i == 0 {
 		addr = rw.freed[st.p]
 	}
+	if addr == nil && st.steal > 0 && st.steal != st.p && st.i == 0 {
+		// the daemon recycled the address of a veth pod whose DEL was lost or is late
+		if v := rw.pods[st.steal]; v != nil && !v.superseded && len(v.steps) == 1 && v.steps[0].dp == "policy" && !rw.eniGone[v.steps[0].eni] {
+			addr = v.cfgs[0].ContainerIPNet
+		}
+	}
 	if st.i == 0 {
 		delete(rw.freed, st.p)
 	}
@@ -995,6 +1006,18 @@ func (rw *dpRealWorld) setup(st dpStep, eniIndex int) (vt.M, error) {
 	}
 	if err == nil {
 		pod.steps, pod.cfgs, pod.recs = append(pod.steps, st), append(pod.cfgs, cfg), append(pod.recs, rec)
+		// an address has one holder: whoever else still carries it is gone
+		same := func(a, b *net.IPNet) bool { return a != nil && b != nil && a.IP.Equal(b.IP) }
+		for id, other := range rw.pods {
+			if id == st.p {
+				continue
+			}
+			for _, oc := range other.cfgs {
+				if same(oc.ContainerIPNet.IPv4, cfg.ContainerIPNet.IPv4) || same(oc.ContainerIPNet.IPv6, cfg.ContainerIPNet.IPv6) {
+					other.superseded = true
+				}
+			}
+		}
 	} else if st.dp == "policy" {
 		pod.failed = append(pod.failed, cfg)
 	}
@@ -1008,7 +1031,7 @@ func (rw *dpRealWorld) teardown(p int, how string) error {
 	pod := rw.pods[p]
 	ctx := context.Background()
 	for k, st := range pod.steps {
-		if st.i == 0 {
+		if st.i == 0 && !pod.superseded {
 			rw.freed[p] = pod.cfgs[k].ContainerIPNet
 		}
 	}
@@ -1074,6 +1097,9 @@ func (rw *dpRealWorld) rgets(w *vt.Writer) {
 	}
 	var atts []att
 	for _, id := range ids {
+		if rw.pods[id].superseded {
+			continue
+		}
 		for k := range rw.pods[id].cfgs {
 			atts = append(atts, att{rw.pods[id].steps[k], rw.pods[id].cfgs[k]})
 		}
@@ -1173,6 +1199,9 @@ func TestVerifDatapathL2(t *testing.T) {
 					continue
 				}
 				how := st.how
+				if rw.pods[st.p].superseded {
+					how = "generic" // the daemon has no allocation record of a pod whose address it handed on: cmdDel stops after GenericTearDown
+				}
 				for _, s := range rw.pods[st.p].steps {
 					if s.dp != "policy" && how == "dp" {
 						how = "cni" // only the policy-route datapath has a Teardown of its own
